@@ -332,3 +332,5 @@ def run(chk, facts, tier):
     _c08.wrapper_tables(chk, facts)
     from rules import shared_namesake
     shared_namesake.check(chk, facts, "C06.NAMESAKE.variant", None, 125)
+    from rules import c06_slot_guard
+    c06_slot_guard.check(chk, facts)
